@@ -1,0 +1,44 @@
+"""Verification hooks. Inert unless the environment variable SQLGLOT_VERIF is "1".
+
+Call sites are written `if _VERIF: _verif.<fn>(...)`; with the guard off they cost one
+global load. With the guard on nothing happens either until a harness installs `sink`
+(a callable taking an event name and a dict) and/or sets `budget`.
+"""
+
+from __future__ import annotations
+
+import os
+import typing as t
+
+ENABLED: bool = os.environ.get("SQLGLOT_VERIF") == "1"
+
+# Installed by a harness; called synchronously at the hook site, may block (yield points).
+sink: t.Optional[t.Callable[[str, dict], None]] = None
+
+# Deterministic work measure: number of tokenizer/parser/generator steps since `reset_steps`.
+steps: dict = {"t": 0, "p": 0, "g": 0}
+budget: int = 0
+
+
+class StepBudgetExceeded(BaseException):
+    """Raised when `budget` is set and exceeded. Not an Exception on purpose: the library
+    must not be able to swallow or wrap it."""
+
+
+def reset_steps(new_budget: int = 0) -> None:
+    global budget
+    steps["t"] = steps["p"] = steps["g"] = 0
+    budget = new_budget
+
+
+def step(kind: str) -> None:
+    n = steps[kind] + 1
+    steps[kind] = n
+    if budget and n > budget:
+        raise StepBudgetExceeded(kind)
+
+
+def emit(event: str, **fields: t.Any) -> None:
+    s = sink
+    if s is not None:
+        s(event, fields)
